@@ -4,7 +4,7 @@
    bit 1: an input was not consumed to the end although the model says it is (or vice versa). *)
 From Coq Require Import Floats ZArith Bool List.
 Import ListNotations.
-From Verif Require Import Base.FloatUtil Base.Num Base.Stream Base.GenPrelude Gen.All.
+From Verif Require Import Base.FloatUtil Base.Num Base.Stream Base.HelperModels.
 
 Inductive helper :=
 | HMap | HApply | HFilter | HSkip | HHead | HFirst | HLast | HShift | HBuffered | HPipe | HWaitable | HDuplicate | HCount | HSince
@@ -15,9 +15,7 @@ Inductive helper :=
 Inductive case :=
 | CH (h : helper) (ps : list Z) (fs : list float) (inputs : list (list float)) (outs : list (list float)) (consumed : list bool).
 
-Definition E0 : expr float float := EIn 0.
-Definition E1 : expr float float := EIn 1.
-Definition E2 : expr float float := EIn 2.
+(* The slice models used here are hand-written (Stream.v, HelperLaws.v), independent of the regenerated definitions. *)
 Definition p (ps : list Z) (i : nat) : Z := nth i ps 0%Z.
 Definition f (fs : list float) (i : nat) : float := nth i fs 0%float.
 
@@ -30,7 +28,6 @@ Definition t_prev (prev x : float) : float := (prev + x)%float.
 
 Definition model (h : helper) (ps : list Z) (fs : list float) (ins : list (list float)) : list (list float) :=
   let i0 := nth 0 ins [] in let i1 := nth 1 ins [] in let i2 := nth 2 ins [] in
-  let one (e : expr float float) := [sem e ins] in
   match h with
   | HMap | HApply => [map t_map i0]
   | HFilter => [s_filter t_pred i0]
@@ -43,31 +40,31 @@ Definition model (h : helper) (ps : list Z) (fs : list float) (ins : list (list 
   | HPipe | HWaitable => [s_pipe i0]
   | HDuplicate => repeat i0 (Z.to_nat (p ps 0))
   | HCount => [s_count (f fs 0) i0]
-  | HSince => one (helper_Since E0)
-  | HChange => one (helper_Change E0 (p ps 0))
-  | HChangeRatio => one (helper_ChangeRatio E0 (p ps 0))
-  | HChangePercent => one (helper_ChangePercent E0 (p ps 0))
+  | HSince => [s_since PrimFloat.eqb i0]
+  | HChange => [s_change (p ps 0) i0]
+  | HChangeRatio => [s_change_ratio (p ps 0) i0]
+  | HChangePercent => [s_change_percent (p ps 0) i0]
   | HOperate => [s_op2 t_op2 i0 i1]
   | HOperate3 => [s_op3 t_op3 i0 i1 i2]
   | HEcho => [s_echo 0%float (p ps 0) (p ps 1) i0]
   | HSeq => [s_seq_fuel 1000 (f fs 0) (f fs 1) (f fs 2)]
   | HMapWithPrevious => [s_scan t_prev (f fs 0) i0]
-  | HAbs => one (helper_Abs E0)
-  | HAdd => one (helper_Add E0 E1)
-  | HSubtract => one (helper_Subtract E0 E1)
-  | HMultiply => one (helper_Multiply E0 E1)
-  | HDivide => one (helper_Divide E0 E1)
-  | HMultiplyBy => one (helper_MultiplyBy E0 (f fs 0))
-  | HDivideBy => one (helper_DivideBy E0 (f fs 0))
-  | HIncrementBy => one (helper_IncrementBy E0 (f fs 0))
-  | HDecrementBy => one (helper_DecrementBy E0 (f fs 0))
-  | HPow => one (helper_Pow E0 (f fs 0))
-  | HSqrt => one (helper_Sqrt E0)
-  | HSign => one (helper_Sign E0)
-  | HKeepPositives => one (helper_KeepPositives E0)
-  | HKeepNegatives => one (helper_KeepNegatives E0)
-  | HRoundDigits => one (helper_RoundDigits E0 (p ps 0))
-  | HSyncPeriod => one (helper_SyncPeriod (p ps 0) (p ps 1) E0)
+  | HAbs => [map PrimFloat.abs i0]
+  | HAdd => [s_op2 PrimFloat.add i0 i1]
+  | HSubtract => [s_op2 PrimFloat.sub i0 i1]
+  | HMultiply => [s_op2 PrimFloat.mul i0 i1]
+  | HDivide => [s_op2 PrimFloat.div i0 i1]
+  | HMultiplyBy => [map (fun x => x * f fs 0)%float i0]
+  | HDivideBy => [map (fun x => x / f fs 0)%float i0]
+  | HIncrementBy => [map (fun x => x + f fs 0)%float i0]
+  | HDecrementBy => [map (fun x => x - f fs 0)%float i0]
+  | HPow => [map (fun x => npow x (f fs 0)) i0]
+  | HSqrt => [map PrimFloat.sqrt i0]
+  | HSign => [s_sign i0]
+  | HKeepPositives => [s_keep_positives i0]
+  | HKeepNegatives => [s_keep_negatives i0]
+  | HRoundDigits => [s_round_digits (p ps 0) i0]
+  | HSyncPeriod => [skipn (Z.to_nat (p ps 0 - p ps 1)) i0]
   end.
 
 (* which inputs are consumed to the end: all of them, except that Head stops after [count] values *)
